@@ -366,3 +366,60 @@ def preset_ratio_history(rng, kind, ncalls=12, **over):
         k = rng.randrange(2, len(ops))
         ops[k:k] = [{"op": "reset", "id": 0}, dict(setop)]
     return ops
+
+
+def repo_scenarios(signal_async="index"):
+    """The scenarios of the repository's own unit tests (same constructor arguments, same call
+    patterns), so that every Contract predicate is evaluated on the executions the existing suite
+    already produces but only asserts weakly on."""
+    S = []
+    sinc = {"L": 64, "F": 16, "interp": "Cubic", "window": "BlackmanHarris2", "fcut_milli": 950}
+
+    def new(kind, T, chunk, r=None, **kw):
+        n = {"op": "new", "id": 0, "kind": kind, "T": T, "ch": 2, "chunk": chunk, "seed": 11}
+        if kind in ASYNC:
+            n["r"] = rj(r)
+            n["maxrel"] = rj(Fraction(1))
+            if kind.startswith("Sinc"):
+                n.update(sinc)
+                n["probe"] = "linear" if signal_async == "index" else "dispatch"
+            else:
+                n["degree"] = "Cubic"
+            n["signal"] = signal_async
+        else:
+            n["signal"] = "noise"
+        n.update(kw)
+        return n
+
+    for kind in ASYNC:
+        for T in (64, 32):
+            # make_resampler_*, check_*_output_*: ratio 1.2 / 0.8 / 8 / 0.125, chunk 1024, 50 chunks
+            for r in (Fraction(6, 5), Fraction(4, 5), Fraction(8), Fraction(1, 8)):
+                S.append([new(kind, T, 1024, r)] + [{"op": "process", "id": 0, "via": "alloc"}] * 50)
+            # *_skipped: one channel masked, passed as an empty vector
+            for m in ([True, False], [False, True]):
+                S.append([new(kind, T, 1024, Fraction(6, 5))]
+                         + [{"op": "process", "id": 0, "via": "alloc", "mask": m, "empty_masked": True}] * 3)
+            # reset_resampler_*
+            S.append([new(kind, T, 1024, Fraction(6, 5)), {"op": "process", "id": 0, "via": "alloc"},
+                      {"op": "reset", "id": 0}, {"op": "process", "id": 0, "via": "alloc"}])
+        # resample_big_* / resample_small_*: 44.1k <-> 96k, chunk 1024 (100 chunks) and chunk 1
+        for r in (Fraction(320, 147), Fraction(147, 320)):
+            S.append([new(kind, 32, 1024, r)] + [{"op": "process", "id": 0}] * 100)
+            S.append([new(kind, 32, 1, r)] + [{"op": "process", "id": 0}] * 3000)
+    # check_*_output_resize (sinc): chunk size 1024 -> 256
+    for kind in ("SincFixedIn", "SincFixedOut"):
+        S.append([new(kind, 64, 1024, Fraction(6, 5)), {"op": "process", "id": 0, "via": "alloc"},
+                  {"op": "set_chunk", "id": 0, "n": 256}] + [{"op": "process", "id": 0, "via": "alloc"}] * 4)
+    # synchro.rs
+    fft = [("FftFixedInOut", 44100, 48000, 1024, 1), ("FftFixedInOut", 44100, 44110, 1024, 1),
+           ("FftFixedIn", 44100, 48000, 1024, 2), ("FftFixedIn", 48000, 16000, 1200, 2),
+           ("FftFixedOut", 44100, 192000, 1024, 2), ("FftFixedOut", 44100, 48000, 1024, 2)]
+    for kind, a, b, chunk, sub in fft:
+        base = new(kind, 64, chunk, fs_in=a, fs_out=b, sub=sub)
+        S.append([base] + [{"op": "process", "id": 0, "via": "alloc"}] * 50)
+        S.append([base] + [{"op": "process", "id": 0, "via": "alloc", "mask": [True, False], "empty_masked": True}] * 3)
+        S.append([base] + [{"op": "process", "id": 0, "via": "alloc", "mask": [False, False], "via": "into"}] * 3)
+        S.append([base, {"op": "process", "id": 0, "via": "alloc"}, {"op": "reset", "id": 0},
+                  {"op": "process", "id": 0, "via": "alloc"}])
+    return S
